@@ -251,6 +251,10 @@ def explore(h, max_paths=2000, time_budget=600.0, witness_per_harness=3, obl_tim
             entry = {"kind": "cex", "label": c["label"], "info": _jsonable(c["info"]), "inputs": c["inputs"], "replay": out, "trace": _tr(c["trace"])}
             res["cex"].append(entry["label"])
             if out["status"] in ("failed", "exception"):
+                # say which claim the float run actually fails when it is not the one the solver refuted
+                fl = [f_.get("label") for f_ in out.get("failed", [])] if out["status"] == "failed" else ["exception:%s" % out.get("exc_type")]
+                if fl and c["label"] not in fl:
+                    entry["float_replay_fails"] = fl[:3]
                 res["violations"].append(entry)
             elif out["status"] == "harness_error":
                 res["engine_errors"].append({"error": "harness error in concrete replay: %s" % out, "trace": _tr(c["trace"])})
